@@ -32,6 +32,10 @@ CLAIMED = {
    text='Seeded input BAMs (1..12 contigs either side of the 100 kb small-contig threshold in any order, empty contigs, unplaced/half-mapped/orphan reads, invalid fragments, secondary/supplementary copies) are tagged end to end by the real command-line entry point in single-process mode and with --multiprocess under a SimPool (width 1..4, seeded completion order), with and without --no_rejects, for nla/chic/qflag. Oracle: multiset of primary records (identity, mate, sequence, qualities, reference, position, CIGAR) equals the input, output coordinate-sorted with a usable index, every record has a read group declared in the header, each contig with reads and the unplaced bin owned by exactly one job, --no_rejects removes exactly the invalid fragments (generator label + relation to the default run). Sampled inputs/orders: evidence, not proof.',
    note='Trusts SimPool (atomic task bodies, pickled args/results, shared module globals), the identity parser and the generator label of invalid fragments; samtools-binary branches are unreachable here.',
    tech='deterministic simulation: whole tagger pipeline per forked lifetime under a simulated process pool/clock/uuid source, conservation oracle against the input BAM'),
+ 'C20': dict(engine='status', cat='fault_enumeration', design='5 C20',
+   text='For each seeded (workload, pipeline single/--multiprocess, method nla/chic, initial state empty/stale-success) a fault-free traced lifetime records the crash-point map; then the fault family is enumerated: a true kill (os._exit in the forked child) at every distinct executed (function,line) of the pipeline functions in 5 occurrence classes, an exception at every I/O seam x call-index class x error, worker exception/loss in every job, and (thorough) real EFBIG via RLIMIT_FSIZE at 24 quantiles. Oracle: status says success only if the output BAM exists, has an EOF block, scans to the end, is coordinate sorted, has a usable index and equals the input primaries. Enumeration over faults, sampling over workloads.',
+   note='Trusts: kill = os._exit at Python line granularity of the watched functions (C-level htslib writes are not split); exceptions only at I/O seams; SimPool for worker faults. Power-loss/fsync ordering is outside the statement.',
+   tech='deterministic simulation: crash-point enumeration by line-event tracing with os._exit in forked lifetimes, I/O-seam exception plans, simulated worker loss, RLIMIT_FSIZE; post-mortem oracle on the surviving directory'),
 }
 NA = {
  'C02': 'Pure function of (strategy layout, read pair): fixed slices of two strings; no stream state, schedule, clock, fault or history for a simulator to choose.',
